@@ -123,18 +123,18 @@ pub fn run(args: &Args) -> Option<i32> {
     let mut mon = Monitor::new(args, &rule(prop));
 
     // Workload (bounded by counts): shards x worlds x steps.
-    let n_shards: u64 = args.scale(64, 512);
+    let n_shards: u64 = args.scale(256, 2048);
     let (worlds_q, worlds_t): (u64, u64) = match prop {
-        Prop::C07 => (36, 60),
-        Prop::C08 => (30, 50),
-        Prop::C09 => (20, 32),
-        Prop::C10 => (20, 32),
-        Prop::C11 => (20, 32),
-        Prop::C12 => (26, 40),
-        Prop::C13 => (30, 50),
+        Prop::C07 => (200, 250),
+        Prop::C08 => (160, 200),
+        Prop::C09 => (160, 200),
+        Prop::C10 => (200, 250),
+        Prop::C11 => (160, 200),
+        Prop::C12 => (160, 200),
+        Prop::C13 => (160, 200),
     };
     let worlds = args.scale(worlds_q, worlds_t);
-    let steps = args.scale(260, 320);
+    let steps = 260;
     let only: Option<String> = args.extra.get("inst").cloned();
 
     run_shards(&mut mon, args.threads, n_shards, |shard, m| {
@@ -154,6 +154,7 @@ pub fn run(args: &Args) -> Option<i32> {
 instantiation's integer type can represent (larger values make the model return Err, counted as failed attempts)");
     mon.assume("the driver restores the pre-action snapshot of market and position on Err/panic, as the \
 program's revertible buffer does (checked separately by C21)");
+    mon.assume("distinct_nontrivial is counted on the first 1500 non-trivial cases of every shard only (memory bound); counter nontrivial_cases has the total");
     mon.assume("fee-state updates (distribute position impact, borrowing, funding) run before position \
 operations as in update_fees_state, and additionally on their own at random points");
 
